@@ -150,6 +150,32 @@ def check_file(ctx, model, nptdms, segs, data, stats, cut=None):
     return dis, vio
 
 
+def mid_file_cut(ctx, nptdms, data):
+    """the same file with the raw data of a NON-final segment shortened by less than a chunk (its lead-in says so): a segment
+    whose data is not a whole number of chunks in the middle of a file. Returns the new bytes or None."""
+    import io
+    import struct
+    try:
+        with nptdms.TdmsFile.open(io.BytesIO(data)) as f:
+            segs = list(f._reader._segments)
+            cands = [(k, s) for k, s in enumerate(segs[:-1]) if s.num_chunks >= 2 and s._get_chunk_size() >= 2]
+            if not cands:
+                return None
+            k, s = ctx.rnd.choice(cands)
+            cut = ctx.rnd.randint(1, s._get_chunk_size() - 1)
+            pos, nxt = s.position, s.next_segment_pos
+    except Exception:
+        return None
+    big = (data[pos + 4] >> 6) & 1
+    fmt = ">Q" if big else "<Q"
+    old = struct.unpack(fmt, data[pos + 12:pos + 20])[0]
+    if old < cut:
+        return None
+    b = bytearray(data[:nxt - cut] + data[nxt:])
+    b[pos + 12:pos + 20] = struct.pack(fmt, old - cut)
+    return bytes(b)
+
+
 def check_cuts(ctx, model, nptdms, segs, data, stats):
     """truncated final chunk: only complete rows, prefix of the uncut data, len = rows"""
     dis, vio = [], []
@@ -208,6 +234,21 @@ def run(ctx):
             d, v = check_cuts(ctx, model, nptdms, segs, data, stats)
             disagreements += d
             violations += v
+        if i % 3 == 1:
+            # an incomplete final chunk in the MIDDLE of the file: eager read, lazy windows and chunk streams must still agree
+            md = mid_file_cut(ctx, nptdms, data)
+            if md is not None:
+                stats["mid_file_cuts"] = stats.get("mid_file_cuts", 0) + 1
+                import gen_daqmx as gd_
+                keep_ = gd_.expected_values
+                gd_.expected_values = lambda segs_: {}
+                try:
+                    _d, v = check_file(ctx, None, nptdms, [], md, stats)
+                finally:
+                    gd_.expected_values = keep_
+                for x in v:
+                    x.what = "[a non-final segment shortened by less than a chunk] " + x.what
+                violations += v
         idx = [ob["idx"] for s in segs for ob in s["objs"] if ob["idx"][0] == "D"]
         nb = len(idx[0][5]) if idx else 0
         key = "buffers=%d digital=%s chunks=%d" % (nb, idx[0][1] if idx else None, max(len(s["chunks"]) for s in segs))
